@@ -89,33 +89,46 @@ Definition default_cfg : cfg := mkCfg 10 2 true.     (* NewFSM: maxConf 10, maxT
    [armed]; [out] accumulates (in reverse) what the callbacks saw during the current event. *)
 Record fsm := mkFsm {
   st : St; idc : Z; restart : Z; failc : Z; lastReq : Z; armed : bool; out : list Act;
-  hlog : list HCall                      (* handler calls so far, most recent first *) }.
+  hlog : list HCall;                     (* handler calls so far, most recent first *)
+  nsent : nat;                           (* number of packets originated so far (scr, str, Code-Reject) *)
+  pick : nat -> Z                        (* the Identifier policy: Identifier of the k-th originated packet *) }.
 
-Definition init : fsm := mkFsm Initial 0 0 0 0 false [] [].
+(* NewFSM.  Which Identifier the packets the automaton originates carry is a choice the property leaves
+   free (RFC 1661 5.1/5.5/5.6 only require it to CHANGE where a new exchange starts): the model is
+   parametric in the start value i0 of the counter f.id and in the policy [pk] (Identifier of the k-th
+   originated packet); every theorem holds for all of them.  /repo HEAD: f.id starts at 0 and nextID() is
+   f.id++ (mod 256), i.e. [head_pick 0]; lemma Proofs2.head_id_policy shows that this policy is what the
+   literal f.id++ computes.  lastReqID is 0 until the first Configure-Request has been sent. *)
+Definition head_pick (i0 : Z) (k : nat) : Z := (i0 + Z.of_nat k + 1) mod 256.
+Definition init_id (i0 : Z) (pk : nat -> Z) : fsm := mkFsm Initial i0 0 0 0 false [] [] O pk.
+Definition init : fsm := init_id 0 (head_pick 0).
 
 Definition set_st (s : St) (f : fsm) : fsm :=
-  mkFsm s (idc f) (restart f) (failc f) (lastReq f) (armed f) (out f) (hlog f).
+  mkFsm s (idc f) (restart f) (failc f) (lastReq f) (armed f) (out f) (hlog f) (nsent f) (pick f).
 Definition set_idc (i : Z) (f : fsm) : fsm :=
-  mkFsm (st f) i (restart f) (failc f) (lastReq f) (armed f) (out f) (hlog f).
+  mkFsm (st f) i (restart f) (failc f) (lastReq f) (armed f) (out f) (hlog f) (nsent f) (pick f).
 Definition set_restart (r : Z) (f : fsm) : fsm :=
-  mkFsm (st f) (idc f) r (failc f) (lastReq f) (armed f) (out f) (hlog f).
+  mkFsm (st f) (idc f) r (failc f) (lastReq f) (armed f) (out f) (hlog f) (nsent f) (pick f).
 Definition set_failc (n : Z) (f : fsm) : fsm :=
-  mkFsm (st f) (idc f) (restart f) n (lastReq f) (armed f) (out f) (hlog f).
+  mkFsm (st f) (idc f) (restart f) n (lastReq f) (armed f) (out f) (hlog f) (nsent f) (pick f).
 Definition set_lastReq (i : Z) (f : fsm) : fsm :=
-  mkFsm (st f) (idc f) (restart f) (failc f) i (armed f) (out f) (hlog f).
+  mkFsm (st f) (idc f) (restart f) (failc f) i (armed f) (out f) (hlog f) (nsent f) (pick f).
 Definition set_armed (b : bool) (f : fsm) : fsm :=
-  mkFsm (st f) (idc f) (restart f) (failc f) (lastReq f) b (out f) (hlog f).
+  mkFsm (st f) (idc f) (restart f) (failc f) (lastReq f) b (out f) (hlog f) (nsent f) (pick f).
 Definition emit (a : Act) (f : fsm) : fsm :=
-  mkFsm (st f) (idc f) (restart f) (failc f) (lastReq f) (armed f) (a :: out f) (hlog f).
+  mkFsm (st f) (idc f) (restart f) (failc f) (lastReq f) (armed f) (a :: out f) (hlog f) (nsent f) (pick f).
 Definition hcall (h : HCall) (f : fsm) : fsm :=
-  mkFsm (st f) (idc f) (restart f) (failc f) (lastReq f) (armed f) (out f) (h :: hlog f).
+  mkFsm (st f) (idc f) (restart f) (failc f) (lastReq f) (armed f) (out f) (h :: hlog f) (nsent f) (pick f).
 Definition clear_out (f : fsm) : fsm :=
-  mkFsm (st f) (idc f) (restart f) (failc f) (lastReq f) (armed f) [] (hlog f).
+  mkFsm (st f) (idc f) (restart f) (failc f) (lastReq f) (armed f) [] (hlog f) (nsent f) (pick f).
 
 Notation "x |> g" := (g x) (at level 55, left associativity, only parsing).
 
-(* func (f *FSM) nextID() uint8 { f.id++; return f.id }   (uint8 wraps) *)
-Definition next_id (f : fsm) : Z := (idc f + 1) mod 256.
+(* func (f *FSM) nextID() uint8: the Identifier of the next originated packet, by the policy; [take_id]
+   records it in f.id.  (HEAD: f.id++; return f.id, uint8 wraps.) *)
+Definition next_id (f : fsm) : Z := pick f (nsent f).
+Definition take_id (f : fsm) : fsm :=
+  mkFsm (st f) (next_id f) (restart f) (failc f) (lastReq f) (armed f) (out f) (hlog f) (S (nsent f)) (pick f).
 
 Definition startTimer (f : fsm) : fsm := set_armed true f.     (* stopTimer(); AfterFunc(...) *)
 Definition stopTimer (f : fsm) : fsm := set_armed false f.
@@ -126,7 +139,7 @@ Definition zrc (f : fsm) : fsm := f |> set_restart 0 |> emit Zrc.
 (* scr: id := nextID(); lastReqID = id; send(ConfReq, id, ...); startTimer() *)
 Definition scr (f : fsm) : fsm :=
   let id := next_id f in
-  f |> set_idc id |> set_lastReq id |> emit (Scr id) |> startTimer.
+  f |> take_id |> set_lastReq id |> emit (Scr id) |> startTimer.
 Definition sca (id : Z) (f : fsm) : fsm := emit (Sca id) f.
 Definition scn (id : Z) (f : fsm) : fsm := f |> set_failc (failc f + 1) |> emit (Scn id).
 Definition screj (id : Z) (f : fsm) : fsm := emit (Screj id) f.
@@ -134,10 +147,10 @@ Definition screj (id : Z) (f : fsm) : fsm := emit (Screj id) f.
 Definition str (c : cfg) (f : fsm) : fsm :=
   let f := set_restart (maxTerm c) f in
   let id := next_id f in
-  f |> set_idc id |> emit (Str id) |> startTimer.
+  f |> take_id |> emit (Str id) |> startTimer.
 Definition strRetransmit (f : fsm) : fsm :=
   let id := next_id f in
-  f |> set_idc id |> emit (Str id) |> startTimer.
+  f |> take_id |> emit (Str id) |> startTimer.
 Definition sta (id : Z) (f : fsm) : fsm := emit (Sta id) f.
 Definition tlu := emit Tlu.
 Definition tld := emit Tld.
@@ -304,7 +317,7 @@ Definition rxjEvent (c : cfg) (v : variant) (f : fsm) : fsm :=
 (* func (f *FSM) rucEvent(code, id, data): f.send(CodeRej, f.nextID(), pkt) *)
 Definition rucEvent (code id : Z) (f : fsm) : fsm :=
   let nid := next_id f in
-  f |> set_idc nid |> emit (Scj nid code id).
+  f |> take_id |> emit (Scj nid code id).
 
 (* func (f *FSM) rxrEvent(id, data) *)
 Definition rxrEvent (id : Z) (data : list Z) (f : fsm) : fsm :=
